@@ -117,4 +117,21 @@ def apply() -> None:
         return _stock_format(obj, format_spec)
 
     core._PATCH_REGISTRATIONS[format] = _format
+
+    # 4. int(real-valued symbolic float): truncation toward zero as a solver term instead of a realisation
+    _stock_int = bl._int
+
+    def _int(val=0, base=bl._MISSING):  # type: ignore[no-untyped-def]
+        with NoTracing():
+            if base is bl._MISSING:
+                if isinstance(val, bl.RealBasedSymbolicFloat):
+                    v = val.var
+                    return SymbolicInt(z3.If(v >= 0, z3.ToInt(v), -z3.ToInt(-v)))
+            from crosshair.util import CrossHairValue
+
+            if not isinstance(val, CrossHairValue) and not isinstance(base, CrossHairValue):
+                return int(val) if base is bl._MISSING else int(val, base)  # concrete: native conversion
+        return _stock_int(val, base) if base is not bl._MISSING else _stock_int(val)
+
+    core._PATCH_REGISTRATIONS[int] = _int
     _done = True
